@@ -233,6 +233,140 @@ Section Live.
   Qed.
 End Live.
 
+(* ---- from the connection to the first assignment -------------------------------------------------------------- *)
+Section Start.
+  Variable sha1 : bytes -> bytes.
+  Variable cf : hconf.
+  Variable disk : bytes -> option bytes.
+  Variable ovf : bool.
+  Variable a : addr.
+  Variable content : N -> bytes.
+  Variable choose : mgr -> peer -> option N.
+  Hypothesis choose_ok : forall m p, pick_ok m p (choose m p) = true.
+
+  (* an incoming connection from a seeder: its handshake, its bitfield with every piece, and -- after our Interested --
+     its unchoke; the manager's answers are its actual answers with the chooser's picks.  If something is missing,
+     the three exchanges end in the situation Cur (a piece assigned and asked for). *)
+  Theorem connection_reaches_first_assignment m0 p0 s0 pid bs :
+    Good sha1 cf content m0 ->
+    (forall j x, nthN (m_status m0) j = Some x -> x = Missing \/ x = Have) -> all_have (m_status m0) = false ->
+    pget (m_peers m0) a = Some p0 -> p_piece_index p0 = None -> length (p_pieces p0) = length (m_status m0) ->
+    to_vec bs (pieces_n m0) = Some (repeat true (length (m_status m0))) -> bitfield_validate bs (c_pieces_num cf) = true ->
+    h_peer_id s0 = None -> h_hs_done s0 = false -> h_choked s0 = true -> h_rx s0 = None ->
+    exists m1 r1 bc1 sp1 s1 a1 m2 r2 bc2 sp2 s2 a2 m3 r3 bc3 sp3 s3 a3 c,
+      (* handshake / Init *)
+      mstep m0 (CInit a pid) None = Ok (m1, r1, bc1, sp1) /\
+      hstep sha1 cf disk ovf s0 (EFrame (Handshake (c_info_hash cf) pid)) (Some r1) = HCont s1 a1 /\
+      (* bitfield *)
+      (exists pk2, mstep m1 (CBitfield a bs) pk2 = Ok (m2, r2, bc2, sp2)) /\
+      hstep sha1 cf disk ovf s1 (EFrame (Bitfield bs)) (Some r2) = HCont s2 a2 /\
+      (* unchoke: the chooser's pick is assigned *)
+      (exists p2, pget (m_peers m2) a = Some p2 /\ mstep m2 (CUnchoke a) (choose m2 p2) = Ok (m3, r3, bc3, sp3)) /\
+      hstep sha1 cf disk ovf s2 (EFrame Unchoke) (Some r3) = HCont s3 a3 /\
+      Cur sha1 cf a content m3 s3 c /\ still_missing m3 = still_missing m0.
+  Proof.
+    intros HG Hst Hnot Ep Ei Hlp Hvec Hval Hpid Hd Hck Hrx.
+    destruct HG as [HLen HGl].
+    (* 1. handshake *)
+    assert (S1 : mstep m0 (CInit a pid) None = Ok (with_peer m0 a (set_id p0 pid), RBitfield (map is_have (m_status m0)), [], [])).
+    { cbn [mstep]. rewrite Ep. reflexivity. }
+    set (m1 := with_peer m0 a (set_id p0 pid)).
+    set (s1 := set_hs_done (set_pid (set_ka s0 0) (Some pid))).
+    assert (T1 : hstep sha1 cf disk ovf s0 (EFrame (Handshake (c_info_hash cf) pid)) (Some (RBitfield (map is_have (m_status m0)))) =
+                 HCont s1 ([ASend (Handshake (c_info_hash cf) (c_own_id cf)); ACmd (KInit pid)] ++ [ASend (Bitfield (from_vec (map is_have (m_status m0))))])).
+    { cbn [hstep]. unfold handle_frame. rewrite Hd. cbn [negb andb]. rewrite andb_false_r. cbv iota.
+      rewrite bytes_eqb_refl. cbn [negb]. cbn [set_ka h_peer_id]. rewrite Hpid. reflexivity. }
+    (* 2. bitfield *)
+    set (p1 := set_id p0 pid).
+    assert (Ep1 : pget (m_peers m1) a = Some p1) by (unfold m1; cbn [with_peer m_peers]; apply pget_pset_same).
+    set (n := length (m_status m0)) in *.
+    set (v := repeat true n).
+    assert (Hlv : (len v =? len (p_pieces p1)) = true).
+    { unfold v, len, p1. cbn [set_id p_pieces]. rewrite repeat_length, Hlp. apply N.eqb_refl. }
+    set (m1b := with_peer m1 a (set_pieces p1 v)).
+    set (pk2 := choose m1b (set_pieces p1 v)).
+    assert (exists m2 r2, mstep m1 (CBitfield a bs) pk2 = Ok (m2, r2, [], []) /\
+              m_status m2 = m_status m0 /\ m_plens m2 = m_plens m0 /\
+              (exists u am, r2 = RBitfieldState u am) /\
+              exists p2, pget (m_peers m2) a = Some p2 /\ p_pieces p2 = v /\ p_piece_index p2 = None /\ p_choked p2 = p_choked p0) as S2.
+    { cbn [mstep]. rewrite Ep1. change (pieces_n m1) with (pieces_n m0). rewrite Hvec. fold v. rewrite Hlv. cbn [negb]. unfold out.
+      eexists _, _. split; [reflexivity|]. cbn [with_peer m_status m_plens m_peers]. split; [reflexivity|]. split; [reflexivity|].
+      split; [eexists _, _; reflexivity|]. eexists. split; [apply pget_pset_same|]. cbn [set_am set_pieces set_id p_pieces p_piece_index p_choked].
+      repeat split; assumption. }
+    destruct S2 as (m2 & r2 & S2 & Est2 & Epl2 & (u & am & ->) & p2 & Ep2 & Epc2 & Ei2 & Ec2).
+    assert (T2 : exists a2, hstep sha1 cf disk ovf s1 (EFrame (Bitfield bs)) (Some (RBitfieldState u am)) = HCont (set_ka s1 0) a2).
+    { cbn [hstep]. unfold handle_frame. unfold s1 at 1. cbn [set_hs_done h_hs_done negb andb]. rewrite andb_false_r. cbv iota.
+      rewrite Hval. cbn [negb]. eexists. reflexivity. }
+    destruct T2 as [a2 T2].
+    set (s2 := set_ka s1 0) in *.
+    (* 3. unchoke: the chooser must pick something, and it picks a Missing piece *)
+    assert (Hst2 : forall j x, nthN (m_status m2) j = Some x -> x = Missing \/ x = Have) by (rewrite Est2; exact Hst).
+    assert (Hall2 : all_pieces p2 (length (m_status m2))).
+    { intros j Hj. rewrite Epc2. unfold v. rewrite Est2 in Hj. fold n in Hj. apply nth_error_nth. apply nth_error_repeat. exact Hj. }
+    pose proof (choose_ok m2 p2) as Hok.
+    destruct (choose m2 p2) as [c|] eqn:Epick.
+    2:{ exfalso. pose proof (pick_none_all_have sha1 disk a content choose choose_ok m2 p2 Ep2 Hall2 Hst2 Hok) as Hah. rewrite Est2 in Hah. congruence. }
+    pose proof (pick_some_is_missing a m2 p2 c Ep2 Hst2 Hok) as Hmc.
+    assert (Hclt : (N.to_nat c < length (m_plens m2))%nat).
+    { rewrite Epl2, <- HLen. unfold n. rewrite <- Est2. apply nthN_some_iff. eexists. exact Hmc. }
+    destruct (proj2 (nthN_some_iff (m_plens m2) c) Hclt) as [l Hl].
+    assert (S3 : exists m3 r3, mstep m2 (CUnchoke a) (Some c) = Ok (m3, r3, [], []) /\
+               m_status m3 = sset (m_status m2) c (Reserved 1) /\ m_plens m3 = m_plens m2 /\
+               (r3 = RUnchoke_Req c l \/ r3 = RUnchoke_IntReq c l) /\
+               pget (m_peers m3) a = Some (set_assign (set_choked p2 false) (Some c) true)).
+    { cbn [mstep]. rewrite Ep2. unfold upd_status. rewrite Hmc. cbn [bind incr]. unfold plen_of. rewrite Hl. cbn [bind]. unfold out.
+      eexists _, _. split; [reflexivity|]. cbn [with_peer with_status m_status m_plens m_peers].
+      split; [reflexivity|]. split; [reflexivity|]. split; [destruct (p_am_interested p2); [left | right]; reflexivity | apply pget_pset_same]. }
+    destruct S3 as (m3 & r3 & S3 & Est3 & Epl3 & Hr3 & Ep3).
+    assert (Hck2 : h_choked s2 = true) by exact Hck.
+    assert (T3 : exists int r a3, new_piece_request cf int c l = (r, a3) /\
+               exists acts, hstep sha1 cf disk ovf s2 (EFrame Unchoke) (Some r3) = HCont (set_rx (set_buff (set_hchoked (set_ka s2 0) false) []) (Some r)) acts).
+    { cbn [hstep]. unfold handle_frame. change (h_hs_done s2) with true. cbn [negb andb]. rewrite andb_false_r. cbv iota.
+      change (h_choked (set_ka s2 0)) with (h_choked s2). rewrite Hck2. cbn [negb andb]. rewrite andb_false_r. cbv iota.
+      destruct Hr3 as [-> | ->].
+      - destruct (new_piece_request cf false c l) as [r a3] eqn:En. exists false, r, a3. split; [exact En|]. eexists. reflexivity.
+      - destruct (new_piece_request cf true c l) as [r a3] eqn:En. exists true, r, a3. split; [exact En|]. eexists. reflexivity. }
+    destruct T3 as (int & r & a3 & En & acts3 & T3).
+    exists m1, (RBitfield (map is_have (m_status m0))), [], [], s1,
+           ([ASend (Handshake (c_info_hash cf) (c_own_id cf)); ACmd (KInit pid)] ++ [ASend (Bitfield (from_vec (map is_have (m_status m0))))]),
+           m2, (RBitfieldState u am), [], [], s2, a2,
+           m3, r3, [], [], (set_rx (set_buff (set_hchoked (set_ka s2 0) false) []) (Some r)), acts3, c.
+    split; [exact S1|]. split; [exact T1|]. split; [exists pk2; exact S2|]. split; [exact T2|].
+    split; [exists p2; split; [exact Ep2 | rewrite Epick; exact S3]|]. split; [exact T3|]. split.
+    - unfold Cur. split; [split; [rewrite Est3, Epl3, Epl2; unfold sset; rewrite set_nth_length, Est2; exact HLen | rewrite Epl3, Epl2; exact HGl]|].
+      split; [reflexivity|].
+      split; [eexists; split; [exact Ep3|]; split; [reflexivity|]; split; [reflexivity|];
+              rewrite Est3; unfold sset; rewrite set_nth_length; cbn [set_assign set_choked p_pieces]; exact Hall2|].
+      split; [rewrite Est3, nthN_sset, N.eqb_refl, Hmc; reflexivity|].
+      split.
+      + intros j x Nj. rewrite Est3, nthN_sset. replace (c =? j) with false by (symmetry; apply N.eqb_neq; congruence). apply Hst2.
+      + exists l, int, r, a3. split; [rewrite Epl3; exact Hl|]. split; [exact En | reflexivity].
+    - unfold still_missing. rewrite Est3, Est2. unfold sset.
+      assert (E2 : nth_error (m_status m0) (N.to_nat c) = Some Missing) by (rewrite <- Est2; exact Hmc).
+      pose proof (missing_set (m_status m0) (N.to_nat c) Missing (Reserved 1) E2) as M. cbn [nh is_have negb b2n'] in M. fold nh. lia.
+  Qed.
+End Start.
+
+(* from the connection to the complete download *)
+Theorem seeder_from_connection sha1 cf disk ovf a content choose
+  (choose_ok : forall m p, pick_ok m p (choose m p) = true) m0 p0 s0 (pid bs : bytes) :
+  Good sha1 cf content m0 ->
+  (forall j x, nthN (m_status m0) j = Some x -> x = Missing \/ x = Have) -> all_have (m_status m0) = false ->
+  pget (m_peers m0) a = Some p0 -> p_piece_index p0 = None -> length (p_pieces p0) = length (m_status m0) ->
+  to_vec bs (pieces_n m0) = Some (repeat true (length (m_status m0))) -> bitfield_validate bs (c_pieces_num cf) = true ->
+  h_peer_id s0 = None -> h_hs_done s0 = false -> h_choked s0 = true -> h_rx s0 = None ->
+  exists m3 s3 c m', Cur sha1 cf a content m3 s3 c /\ still_missing m3 = still_missing m0 /\
+                     Download sha1 cf disk ovf a content choose (m3, s3, c) m' /\ all_have (m_status m') = true.
+Proof.
+  intros HG Hst Hnot Ep Ei Hlp Hvec Hval Hpid Hd Hck Hrx.
+  destruct (connection_reaches_first_assignment sha1 cf disk ovf a content choose choose_ok m0 p0 s0 pid bs
+              HG Hst Hnot Ep Ei Hlp Hvec Hval Hpid Hd Hck Hrx)
+    as (m1 & r1 & bc1 & sp1 & s1 & a1 & m2 & r2 & bc2 & sp2 & s2 & a2 & m3 & r3 & bc3 & sp3 & s3 & a3 & c & _ & _ & _ & _ & _ & _ & HC & Hm).
+  destruct (seeder_download_completes sha1 cf disk ovf a content choose choose_ok (N.to_nat (still_missing m3)) m3 s3 c) as (m' & HD & Hall);
+    [rewrite N2Nat.id; reflexivity | exact HC|].
+  exists m3, s3, c, m'. split; [exact HC|]. split; [exact Hm|]. split; [exact HD | exact Hall].
+Qed.
+
 (* with the code's own chooser (rarest first over the desired pieces, any fixed tie order): no hypothesis left on it *)
 Corollary seeder_download_completes_rarest sha1 cf disk ovf a content n m s c :
   still_missing m = N.of_nat n -> Cur sha1 cf a content m s c ->
